@@ -402,7 +402,7 @@ Theorem C01_pause_is_source : forall c,
   stopReadInLoop c =
     (if stopReadInLoop_stopread_test (rd_chan c) TcpConnection_kDisconnected (rd_flag c) (st_code (st c))
      then set_reading c false false else c).
-Proof. exact (fun c => conj (startRead_is_source c) (stopRead_is_source c)). Qed.
+Proof. exact pause_is_source. Qed.
 Print Assumptions C01_pause_is_source.
 
 (* structure of the current source: all three send overloads reduce to the StringPiece one or
